@@ -336,8 +336,11 @@ int main(int argc, char** argv)
                 }
             }
             else if (what == "direct" || what == "spd") {
-                for (int meth = 0; meth < 2 && fail.empty(); meth++) {
-                    auto B = build(I, true, true);
+                // variants 0..3: give with the four cache-flag combinations; variant 4: take (needs both caches)
+                const bool cflags[5][2] = {{true, true}, {true, false}, {false, true}, {false, false}, {true, true}};
+                for (int variant = 0; variant < 5 && fail.empty(); variant++) {
+                    const int meth = variant == 4;
+                    auto B = build(I, cflags[variant][0], cflags[variant][1]);
                     B->level->initializeDirectSolver(B->geom, B->coeff, I.dir, threads, meth ? take : give);
                     const PolarGrid& g = B->level->grid();
                     std::mt19937 gen(11 + n);
@@ -366,7 +369,7 @@ int main(int argc, char** argv)
                                 worst = 1;
                         }
                         if (!(worst <= 1e-11L))
-                            fail = std::string(meth ? "DirectSolverTake" : "DirectSolverGive") + ": residual of the solution w.r.t. the stencil: relative " + std::to_string((double)worst) + " (rhs kind " + std::to_string(rhsKind) + ")";
+                            fail = std::string(meth ? "DirectSolverTake" : "DirectSolverGive") + " caches " + (cflags[variant][0] ? "1" : "0") + (cflags[variant][1] ? "1" : "0") + ": residual of the solution w.r.t. the stencil: relative " + std::to_string((double)worst) + " (rhs kind " + std::to_string(rhsKind) + ")";
                         if (rhsKind == 1) {
                             if (meth == 0) {
                                 firstSol.assign(I.N, 0);
@@ -451,8 +454,10 @@ int main(int argc, char** argv)
             else if ((what == "smoother" && smootherDomain) || (what == "xsmoother" && xDomain)) {
                 bool ex = what == "xsmoother";
                 std::vector<double> res[2];
-                for (int meth = 0; meth < 2 && fail.empty(); meth++) {
-                    auto B = build(I, true, true);
+                const bool cflags[5][2] = {{true, true}, {true, false}, {false, true}, {false, false}, {true, true}};
+                for (int variant = 0; variant < 5 && fail.empty(); variant++) {
+                    const int meth = variant == 4;
+                    auto B = build(I, cflags[variant][0], cflags[variant][1]);
                     if (ex)
                         B->level->initializeExtrapolatedSmoothing(B->geom, B->coeff, I.dir, threads, meth ? take : give);
                     else
@@ -499,8 +504,8 @@ int main(int argc, char** argv)
                             }
                             if (!(fabsl((LD)got - want[q]) <= 1e-10L * sc)) {
                                 char buf[300];
-                                snprintf(buf, sizeof buf, "%s %s: node (%d,%d) = %.15g, exact line relaxation of the stencil gives %.15Lg%s", ex ? "ExtrapolatedSmoother" : "Smoother",
-                                         meth ? "Take" : "Give", q / I.nt, q % I.nt, got, want[q], round ? " (started from the exact solution)" : "");
+                                snprintf(buf, sizeof buf, "%s %s caches %d%d: node (%d,%d) = %.15g, exact line relaxation of the stencil gives %.15Lg%s", ex ? "ExtrapolatedSmoother" : "Smoother",
+                                         meth ? "Take" : "Give", (int)cflags[variant][0], (int)cflags[variant][1], q / I.nt, q % I.nt, got, want[q], round ? " (started from the exact solution)" : "");
                                 fail = buf;
                             }
                         }
